@@ -327,3 +327,27 @@ Proof.
   change ("/" :: join_seg (bb ++ [b]) ++ ["/"]) with (("/" :: join_seg (bb ++ [b])) ++ ["/"]).
   rewrite slash_adjusted_snoc. reflexivity.
 Qed.
+
+(* ------------------------------------------- RFC 3986 section 5.4 examples *)
+
+(* base http://a/b/c/d;p?q ; expected targets as path[?query] *)
+Definition rfc_res (r : bytes) : option bytes :=
+  match resolve (S2B "/b/c/d;p") (Some (S2B "q")) (parse_ref r) with
+  | Some (p, q) => Some (p ++ match q with Some q => "?" :: q | None => [] end)
+  | None => None
+  end.
+
+Definition rfc_chk (c : string * string) : bool :=
+  match rfc_res (S2B (fst c)) with Some p => bytes_eqb p (S2B (snd c)) | None => false end.
+
+Example rfc3986_5_4_examples :
+  forallb rfc_chk
+    [("g","/b/c/g"); ("./g","/b/c/g"); ("g/","/b/c/g/"); ("/g","/g"); ("?y","/b/c/d;p?y"); ("g?y","/b/c/g?y");
+     ("#s","/b/c/d;p?q"); ("g#s","/b/c/g"); (";x","/b/c/;x"); ("g;x","/b/c/g;x"); ("","/b/c/d;p?q");
+     (".","/b/c/"); ("./","/b/c/"); ("..","/b/"); ("../","/b/"); ("../g","/b/g"); ("../..","/"); ("../../","/");
+     ("../../g","/g"); ("../../../g","/g"); ("../../../../g","/g"); ("/./g","/g"); ("/../g","/g"); ("g.","/b/c/g.");
+     (".g","/b/c/.g"); ("g..","/b/c/g.."); ("..g","/b/c/..g"); ("./../g","/b/g"); ("./g/.","/b/c/g/");
+     ("g/./h","/b/c/g/h"); ("g/../h","/b/c/h"); ("g;x=1/./y","/b/c/g;x=1/y"); ("g;x=1/../y","/b/c/y");
+     ("g?y/./x","/b/c/g?y/./x"); ("g#s/./x","/b/c/g")]%string = true /\
+  rfc_res (S2B "g:h") = None /\ rfc_res (S2B "//g") = None /\ rfc_res (S2B "http:g") = None.
+Proof. vm_compute. auto. Qed.
